@@ -126,10 +126,13 @@ type Branch struct {
 	// value went through the phi of a short-circuit &&); -1 = the opposite.
 	// A guard may use a branch only when, oriented to its success edge, Pol>=0.
 	Pol int
+	// Via: for Pol -1 branches produced by an or-like merge (`a || x`, or a
+	// boolean variable already true on the other paths), the merging phi.
+	Via *ssa.Phi
 }
 
 // Flip returns the branch for the negated predicate.
-func (b Branch) Flip() Branch { return Branch{b.If, 1 - b.Idx, -b.Pol} }
+func (b Branch) Flip() Branch { return Branch{b.If, 1 - b.Idx, -b.Pol, b.Via} }
 
 // Edge returns the CFG edge of the branch.
 func (b Branch) Edge() Edge { return Edge{b.If.Block(), b.Idx} }
@@ -147,26 +150,43 @@ func TrueBranches(v ssa.Value) []Branch {
 			switch x := r.(type) {
 			case *ssa.If:
 				if x.Cond == a {
-					out = append(out, Branch{x, 0, 0})
+					out = append(out, Branch{x, 0, 0, nil})
 				}
 			case *ssa.Phi:
 				// short-circuit `p && a`, or a boolean result variable set to
 				// false on the other paths: phi [false, ..., a]
 				okAnd := true
-				for _, e := range x.Edges {
+				okOr := true
+				for i, e := range x.Edges {
 					if e == a {
 						continue
 					}
-					if cb, isC := ConstBool(e); !isC || cb {
+					cb, isC := ConstBool(e)
+					if !isC || cb {
 						okAnd = false
 					}
+					// true on that edge: the constant true, or the edge is the
+					// true edge of a test of the incoming value itself
+					if !(isC && cb) && !trueOnEdge(e, x.Block().Preds[i], x.Block()) {
+						okOr = false
+					}
+				}
+				if !okAnd && okOr {
+					// `p || a`: the merged value being false implies a false;
+					// being true does not imply a (Pol -1)
+					for _, b := range TrueBranches(x) {
+						if b.Pol == 0 {
+							out = append(out, Branch{b.If, b.Idx, -1, x})
+						}
+					}
+					continue
 				}
 				if !okAnd {
 					continue
 				}
 				for _, b := range TrueBranches(x) {
 					if b.Pol >= 0 {
-						out = append(out, Branch{b.If, b.Idx, 1})
+						out = append(out, Branch{b.If, b.Idx, 1, nil})
 					}
 				}
 			case *ssa.UnOp:
@@ -451,4 +471,14 @@ func RetVal(r *ssa.Return, idx int) ssa.Value {
 		}
 	}
 	return v
+}
+
+// trueOnEdge: boolean v is known true when control takes the edge pred -> b
+// (pred ends in `if v` and b is its true successor).
+func trueOnEdge(v ssa.Value, pred, b *ssa.BasicBlock) bool {
+	if len(pred.Instrs) == 0 || len(pred.Succs) != 2 {
+		return false
+	}
+	iff, ok := pred.Instrs[len(pred.Instrs)-1].(*ssa.If)
+	return ok && iff.Cond == v && pred.Succs[0] == b && pred.Succs[1] != b
 }
